@@ -52,6 +52,9 @@ pub struct BRule {
 #[derive(Clone, Debug, Serialize, Deserialize, PartialEq)]
 pub enum BOp {
     Query(u8),
+    /// `NOT <goal>` (closed-world negation); generated for C11 only, whose oracles compare engines with
+    /// each other and need no reference semantics of negation
+    QueryNot(u8),
     /// the caller changes one of its facts
     SetFact(u8, u8),
     /// a caller fact no rule or goal reads is removed / asserted again
@@ -539,12 +542,19 @@ fn run_search(
                     }
                 }
             }
-            BOp::Query(g) => {
+            BOp::Query(g) | BOp::QueryNot(g) => {
                 if goals.is_empty() {
                     continue;
                 }
+                let negated = matches!(op, BOp::QueryNot(_));
+                if negated && prop != "C11" {
+                    continue;
+                }
                 let goal = &goals[*g as usize % goals.len()];
-                let gt = goal_text(types, goal);
+                let gt = if negated { format!("NOT {}", goal_text(types, goal)) } else { goal_text(types, goal) };
+                if negated {
+                    obs.count("probe.negated_query");
+                }
                 let before = snapshot(&facts);
                 if !asked.insert(gt.clone()) {
                     obs.count("probe.same_query_asked_again");
@@ -702,7 +712,7 @@ fn run_frames(ops: &[FrameOp], obs: &mut Obs) -> Result<(), Violation> {
     Ok(())
 }
 
-fn gen_search(rng: &mut Rng, hash_seed: u64) -> BwdTrace {
+fn gen_search(rng: &mut Rng, hash_seed: u64, with_negation: bool) -> BwdTrace {
     let domain = rng.usize(4); // 0 bool, 1 string, 2 integer, 3 mixed bool/string
     let types: Vec<Ty> = (0..NF)
         .map(|_| match domain {
@@ -772,7 +782,13 @@ fn gen_search(rng: &mut Rng, hash_seed: u64) -> BwdTrace {
     for _ in 0..nops {
         let w = rng.weighted(&[55, 20, 5, 5, if attach_rete { 8 } else { 0 }, if attach_rete { 6 } else { 0 }]);
         ops.push(match w {
-            0 => BOp::Query(rng.below(3) as u8),
+            0 => {
+                if with_negation && rng.chance(1, 4) {
+                    BOp::QueryNot(rng.below(3) as u8)
+                } else {
+                    BOp::Query(rng.below(3) as u8)
+                }
+            }
             1 => BOp::SetFact(rng.below(NF as u64) as u8, rng.below(3) as u8),
             2 => BOp::RemoveAux,
             3 => BOp::AssertAux(rng.below(3) as u8),
@@ -807,6 +823,7 @@ impl World for BwdWorld {
         match prop {
             "C09" => probes.extend(["probe.provable_query", "probe.complete_clause_applicable", "probe.derivation_of_height_2_or_more", "probe.derivation_deeper_than_max_depth"]),
             "C10" => probes.extend(["probe.unprovable_query", "probe.failed_query_with_derivable_intermediate_facts", "probe.nested_frame_committed", "probe.frame_rolled_back"]),
+            "C11" => probes.extend(["probe.negated_query"]),
             _ => {}
         }
         WorldInfo {
@@ -851,7 +868,7 @@ impl World for BwdWorld {
                 .collect();
             return BwdTrace::Frames { hash_seed, ops };
         }
-        gen_search(rng, hash_seed)
+        gen_search(rng, hash_seed, prop == "C11")
     }
 
     fn hash_seed(&self, t: &BwdTrace) -> u64 {
